@@ -384,7 +384,7 @@ def run(ctx: Ctx) -> None:
                         if isinstance(a, ast.Constant) and isinstance(a.value, str):
                             vocab(fname, a.value, x, f"requested through {r[1]}")
                 if r and r[0] == "self" and r[1] in ("_consume_until", "_consume_value_until"):
-                    for a in x.args[1:]:
+                    for a in x.args:  # (an accumulator argument, if any, is not a string constant)
                         if isinstance(a, ast.Constant) and isinstance(a.value, str):
                             vocab(fname, a.value, x, "terminator type")
                 if r and r[0] == "self" and r[1] == "_discard_contents":
